@@ -635,6 +635,8 @@ def isinstance_one(interp, v, t, node):
             return isinstance(v, (sym.SComplex, complex))
         if name == 'ndarray':
             return False          # numpy arrays are outside the modelled value domain
+        if name == 'Number':      # numbers.Number: bool, int, float, complex (Decimal / Fraction are not cell values)
+            return isinstance(v, (SInt, SBool, SFloat, int, float, sym.SComplex, complex))
         if name == 'Iterable':
             return isinstance(v, (SStr, str, tuple, list, dict, set, frozenset, range, SSeq,
                                   LazyGen, SymSet)) or \
@@ -659,6 +661,8 @@ def b_hasattr(interp, args, kwargs, node):
         if name in obj.fields:
             return True
         c, m = obj.cls.find(name)
+        if m is None and getattr(obj, 'partial', False):
+            raise Unsupported(f"field '{name}' of {obj.cls.name} is not described by the contract's domain", node)
         return m is not None
     from . import heap
     r = heap.try_hasattr(interp, obj, name, node)
@@ -1386,6 +1390,7 @@ def make_externals(world):
     reg('collections.abc.Iterable', None)
     ext['collections.abc.Iterable'] = Builtin('Iterable', None)
     ext['collections.abc'] = ExternalModule('collections.abc')
+    ext['numbers.Number'] = Builtin('Number', None)
     ext['numpy.ndarray'] = Builtin('ndarray', None)
     ext['openpyxl.formula.tokenizer.Tokenizer'] = TokenizerConsts()
     ext['operator.eq'] = Builtin('operator.eq', lambda i, a, k, n: i.compare('eq', a[0], a[1], n))
